@@ -119,6 +119,16 @@ func expandPattern(pat string, ins map[string]Item, params map[string]string) st
 	for name, it := range ins {
 		out = strings.ReplaceAll(out, "{i:"+name+"}", it.Path)
 		out = strings.ReplaceAll(out, "{i:"+name+"|basename}", baseName(it.Path))
+		// {t:port.key}: a tag the item carries (an unreplaced placeholder stays: the
+		// task cannot be formed)
+		if it.Lin != nil {
+			for k, v := range it.Lin.Tags {
+				out = strings.ReplaceAll(out, "{t:"+name+"."+k+"}", v)
+			}
+		}
+		for k, v := range it.Tags {
+			out = strings.ReplaceAll(out, "{t:"+name+"."+k+"}", v)
+		}
 	}
 	for name, v := range params {
 		out = strings.ReplaceAll(out, "{p:"+name+"}", v)
